@@ -112,6 +112,12 @@ def step : List String → String
         | none => "bad-op"
       | _ => "bad-op"
     | _, _, _, _ => "bad-op"
+  | ["ser", bits, hf, tw, flags, types] =>
+    match filter? bits hf tw types, nat? flags with
+    | some f, some fl => match serializeFilterLoad f (UInt8.ofNat fl) with
+      | some b => toHex b
+      | none => "err"
+    | _, _ => "bad-op"
   | ["load", wire] =>
     match hexBytes? wire with
     | some b => match loadFilter b with
